@@ -41,10 +41,20 @@ def _fake_classes():
 
         def optimize(self, task, mode=None, workers=None):
             cfg = self._config
-            cost = task.data["table"][f"{cfg.a},{cfg.b},{cfg.c}"] if task.data and "table" in task.data else float(cfg.a)
-            with open(cfg.log or task.data["log"], "a") as f:
+            import fcntl
+            key = f"{cfg.a},{cfg.b},{cfg.c}"
+            cost = task.data["table"][key] if task.data and "table" in task.data else float(cfg.a)
+            with open(cfg.log or task.data["log"], "a+") as f:
+                fcntl.flock(f, fcntl.LOCK_EX)          # calls from the trial pool are serialised on the log
+                f.seek(0)
+                seen = sum(1 for l in f if l.strip() and json.loads(l)["params"] == [cfg.a, cfg.b, cfg.c] and json.loads(l)["task"] == type(task).__name__)
+                if isinstance(cost, list):
+                    cost = cost[seen % len(cost)]      # one value per trial: the k-th call with these parameters gets the k-th value
+                f.seek(0, 2)
                 f.write(json.dumps({"algo": cfg.label, "cls": type(self).__name__, "params": [cfg.a, cfg.b, cfg.c],
                                     "task": type(task).__name__, "mode": mode, "workers": workers}) + "\n")
+                f.flush()
+                fcntl.flock(f, fcntl.LOCK_UN)
             a = Agent(position=[0.0], cost=cost if task.minmax == TaskType.MIN else -cost, fitness=1.0)
             return OptimizationResult(evolution=[Population(agents=[a], task_type=task.minmax)], rates=[0.5], best_solution=a,
                                       task_type=task.minmax)
@@ -139,6 +149,30 @@ def c19():
             rc = [json.loads(l) for l in open(log)]
             law(f"resolve {grid} {mm}: runs the optimizer with the best parameters",
                 len(rc) == 1 and bp in pts and tuple(rc[0]["params"]) == (bp.get("a", 0), bp.get("b", 0), bp.get("c", 0)), f"{rc}")
+        # score tables whose best mean has the larger spread (3 trials, run one at a time so that the k-th call gets the k-th value)
+        vtables = [({"1,0,0": [1.0, 9.0, 5.0], "2,0,0": [6.0, 6.0, 6.0], "3,0,0": [6.5, 7.5, 7.0]}, "min", 5.0),
+                   ({"1,0,0": [9.0, 9.0, 9.0], "2,0,0": [8.0, 12.0, 10.0], "3,0,0": [9.5, 9.4, 9.6]}, "max", 10.0)]
+        for table, mm, best in vtables:
+            log = os.path.join(tmp, f"log_{len(os.listdir(tmp))}.jsonl")
+            open(log, "w").close()
+            task = F["tasks"]["TaskA"](variables=F["V"](), minmax=mm, data={"table": table, "log": log})
+            ht = HyperTuner(F["Opt"](), {"a": [1, 2, 3]})
+            ht.execute(task, n_trials=3, n_jobs=2)
+            law(f"execute with differing variances {mm}: best mean wins whatever the spread", ht.best_score == best,
+                f"best_score {ht.best_score}, best_parameters {ht.best_parameters}, optimum {best}")
+        # the same tuner executed twice: the second call answers for the second call only
+        log = os.path.join(tmp, "log_twice.jsonl")
+        open(log, "w").close()
+        t1 = F["tasks"]["TaskA"](variables=F["V"](), minmax="min", data={"table": {"1,0,0": 9.0, "2,0,0": 1.0, "3,0,0": 5.0}, "log": log})
+        t2 = F["tasks"]["TaskB"](variables=F["V"](), minmax="max", data={"table": {"1,0,0": 0.2, "2,0,0": 0.1, "3,0,0": 0.7}, "log": log})
+        ht = HyperTuner(F["Opt"](), {"a": [1, 2, 3]})
+        ht.execute(t1, n_trials=1, n_jobs=2)
+        first = (ht.best_parameters, ht.best_score)
+        ht.execute(t2, n_trials=2, n_jobs=2)
+        law("execute twice on one tuner: first answer", first == ({"a": 2}, 1.0), f"{first}")
+        law("execute twice on one tuner: the second call ranks the second call's scores only",
+            ht.best_parameters == {"a": 3} and ht.best_score == 0.7 and len(ht._df_fit) == 3,
+            f"best {ht.best_parameters} score {ht.best_score} rows {len(ht._df_fit)}")
     finally:
         shutil.rmtree(tmp, ignore_errors=True)
     return out
